@@ -164,4 +164,29 @@ theorem hookPhase_same (r : Rec) (n : Nat) (d : Dec) : ∀ (s : St), s.decs = []
         simp only [hk, if_false] at this
         simp [this.1, this.2.1, this.2.2, h2]
 
+/-! ### takeWhile helpers (for the pruning bound) -/
+
+theorem mem_takeWhile_holds (p : Nat → Bool) : ∀ (l : List Nat) (x : Nat), x ∈ l.takeWhile p → p x = true := by
+  intro l
+  induction l with
+  | nil => intro x hx; simp at hx
+  | cons a r ih =>
+    intro x hx
+    by_cases ha : p a = true
+    · simp only [List.takeWhile_cons, ha, if_true, List.mem_cons] at hx
+      rcases hx with h | h
+      · subst h; exact ha
+      · exact ih x h
+    · simp [List.takeWhile_cons, ha] at hx
+
+theorem takeWhile_all (p : Nat → Bool) : ∀ (l : List Nat), (∀ x ∈ l, p x = true) → l.takeWhile p = l := by
+  intro l
+  induction l with
+  | nil => intro _; rfl
+  | cons a r ih =>
+    intro h
+    have ha : p a = true := h a (by simp)
+    simp only [List.takeWhile_cons, ha, if_true]
+    rw [ih (fun x hx => h x (by simp [hx]))]
+
 end Helm.Ledger
